@@ -275,19 +275,26 @@ pub fn lib_call<T, F: FnOnce() -> T, C: FnOnce() -> Value>(
     ctx: C,
     f: F,
 ) -> Option<T> {
+    let m0 = crate::alloc::mark_call();
     let t0 = thread_cpu_ns();
     let r = guarded(f);
     let used = thread_cpu_ns().saturating_sub(t0);
+    // Memory that a call comes to hold has to be faulted in and written, and on a loaded machine
+    // that alone costs seconds per GiB of the thread's own CPU time (observed: 4.8 s for the 1.2 GB
+    // of the F15 case on a busy host, 1 s on an idle one).  How much a call may hold is the memory
+    // oracle's question; the CPU limit gets an allowance of 16 ms per MiB by which live memory grew.
+    let grown_mib = (crate::alloc::peak_since_call(m0) >> 20) as u64;
+    let limit = call_cpu_limit_ns().saturating_add(grown_mib.saturating_mul(16_000_000).saturating_mul(call_cpu_limit_ns() / 4_000_000_000));
     match r {
         Ok(v) => {
             // "Hang" has a second face: a call that does return, but only after seconds of CPU time
             // for a few bytes of input.  No monitored call of any workload needs more than a
             // fraction of a second of its own thread's CPU time (measured per thread, so machine
             // load does not enter); the per-case watchdog stays as the outer net.
-            if used > call_cpu_limit_ns() {
+            if used > limit {
                 out.violation(
                     "library-call-burns-cpu-time-out-of-all-proportion",
-                    json!({"call": what, "thread_cpu_seconds": used as f64 / 1e9, "limit_seconds": call_cpu_limit_ns() as f64 / 1e9, "context": ctx()}),
+                    json!({"call": what, "thread_cpu_seconds": used as f64 / 1e9, "limit_seconds": limit as f64 / 1e9, "live_memory_grown_mib": grown_mib, "context": ctx()}),
                 );
             }
             Some(v)
